@@ -197,7 +197,13 @@ CONC = {
     'logging_vs_ident': [('c1', 'logging', '.', 'error'), ('c2', 'ident')],
     'two_logging': [('c1', 'logging', 'm1', 'debug'), ('c2', 'logging', 'm1', 'off')],
     'three': [('c1', 'logging', 'm2', 'info'), ('c2', 'disconnect'), ('c3', 'logging', '.', 'warning')],
+    # the LAST subscriber of a module leaves while another connection subscribes to it
+    'last_leaves_vs_logging': [('c2', 'disconnect'), ('c1', 'logging', 'm1', 'debug')],
+    'last_ident_vs_logging': [('c2', 'ident'), ('c1', 'logging', '.', 'info'), ('c3', 'logging', 'm2', 'debug')],
+    'last_off_vs_logging': [('c2', 'logging', 'm1', 'off'), ('c1', 'logging', 'm1', 'warning')],
 }
+# who listens to everything before the concurrent phase (default: c2 and c3)
+PROLOGUE = {'last_leaves_vs_logging': ('c2',), 'last_ident_vs_logging': ('c2',), 'last_off_vs_logging': ('c2',)}
 
 
 def _conc_run(name, strategy, line_level=True):
@@ -211,7 +217,7 @@ def _conc_run(name, strategy, line_level=True):
     tr = []
     with ds.Patch(dp):
         w = World(['c1', 'c2', 'c3'])
-        for c in ('c2', 'c3'):      # sequential prologue: c2 and c3 listen to everything
+        for c in PROLOGUE.get(name, ('c2', 'c3')):      # sequential prologue: c2 and c3 listen to everything
             a = {'ev': 'logging', 'conn': c, 'target': '.', 'lvl': 'debug'}
             a.update(w.step(a))
             tr.append(a)
@@ -248,7 +254,7 @@ def _conc_run(name, strategy, line_level=True):
                 a.update(w.step(a))
                 tr.append(a)
     # the level table is observed once, after the concurrent phase: attach it to the last concurrent event
-    k = 2 + len(done) - 1
+    k = len(PROLOGUE.get(name, ('c2', 'c3'))) + len(done) - 1
     for i, a in enumerate(tr):
         a['haslevel'] = True
         if a.get('level') is None:
